@@ -8,7 +8,7 @@ props = [json.loads(l) for l in open(f"{V}/properties.jsonl")]
 CLAIMS = {
  "C02": ("SSA dominance/ordering + affine normal forms + linear-fact entailment (Fourier-Motzkin) over channel.go",
          "Decides, on every CFG path of WriteFcall/maybeTruncate/sendmsg/msgmsize of the current tree: truncate->marshal->send->flush ordering on nil-error edges only; exact partition of maybeTruncate on msgmsize(fcall) vs msize (nil only if size<=msize or after the exact Twrite truncation; overflow error only if size>msize, reporting size-msize); Twrite truncation amount and guard; Tread clamp target (mod 2^32); header value len(p)+4 before body; caller's buffer never written.",
-         "Not decided: the uint32 wrap guard of the Tread clamp as a value statement, partial writes in bufio/conn, Size()==len(Marshal()) (C01). Trusted: go/ssa, encoding/binary, bufio.",
+         "Not decided: partial writes in bufio/conn; Size()==len(Marshal()) as a value statement (its layout half is decided). Trusted: go/ssa, encoding/binary, bufio.",
          "§4 C02, §3 E3/E5"),
  "C03": ("SSA bounds obligations discharged by linear-fact entailment + affine equalities + dominance rules over readmsg/ReadFcall",
          "Decides: every slice bound fed by the wire length is two-sided guarded; body read lands at the buffer start and never reads past the frame; the oversize remainder is discarded (affine count) before success; n = header + read (+ discarded); ReadFcall refuses n>len(rdbuf) with the exact excess before decoding, decodes exactly rdbuf[:n-4] (frame isolation), clears *fcall first, applies the inbound Tread clamp, and returns every error.",
@@ -32,7 +32,7 @@ CLAIMS = {
          "§4 C14, §3 E6/E7a"),
  "C04": ("SSA bounds/assertion obligations over the CHA decode scope discharged by linear-fact entailment (guards, loop invariants, make-length equalities, phi case split), allocation-bound rule, CHA panic reachability, error-propagation rule",
          "Decides: every slice/index/make/unchecked-assertion obligation and encoding/binary Put precondition reachable from Codec.Unmarshal/DecodeDir holds on every path (narrow unsigned arithmetic is not assumed wrap-free); no explicit panic reachable; every wire-sized allocation is 16-bit sized (constant bound) or bounded on every feasible edge by the remaining input length, and every decoder is built over a reader with Len(); unknown type bytes yield an error; every error on the decode path is propagated.",
-         "Not decided: re-encode/decode stability (value level), termination (argued), allocations inside reflect/bytes. Trusted: encoding/binary.Read, io.ReadFull, reflect.",
+         "Not decided: re-encode/decode stability as a value statement (layout half decided), allocations inside reflect/bytes. Trusted: encoding/binary.Read, io.ReadFull, reflect.",
          "§4 C04, §3 E4/E4b/E4c"),
  "C11": ("channel-operation enumeration with provenance classification (select wake-up rule), dominance/exit rules, CHA panic reachability, typestate/ownership results for Stop, dataflow rules for cancellation",
          "Decides: every blocking channel op of the server connection involving a data channel is a select with <-conn.closed; conn.closed closed only under sync.Once, never sent on; every exit of the reader/writer loops closes the connection or is the <-closed case; per-request contexts derive from the connection context, cancel funcs are in the tag table before the handler starts, serve defers a cancel-all closure before its loop, table entries deleted only after cancel/on completion; handler.Stop called exactly once, after serve, on every return path, with serve's result; no explicit panic CHA-reachable from the server (size9p panics machine-checked dead); dispatcher bounds; session.Stop releases every fid through the unbind-lock-release helper.",
@@ -87,6 +87,34 @@ CLAIMS = {
          "Not decided: server-side count of bound fids over histories; concurrent use of the non-atomic allocator.",
          "§4 C20, §3 E15"),
 }
+
+
+# rules added after the independent seeding rounds (DESIGN.md §9.7); appended to the "decides" text
+ADDENDA = {
+ "C01": "Also: size9p special-cases exactly the (pointer/value) forms of Rstat/Twstat that encode does; encode returns only its write steps' errors (a refusal only for unrepresentable lengths); Marshal's bytes live in a buffer created by that call; no error on these paths is dropped.",
+ "C02": "Also: the Tread clamp wrap-aware (every wrap case of the uint32 arithmetic); size9p/encode agreement per type and special case (codec-grammar rules); every exit of WriteFcall after a successful sendmsg has passed Flush; Overflow(err)/overflowErr.Size() expose exactly the recorded excess.",
+ "C03": "Also: len(rdbuf)==msize invariant of newChannel/SetMSize; the Tread clause of maybeTruncate (inbound clamp, wrap-aware); decoded payloads are read into fresh storage (codec-grammar rules); Overflow exposure.",
+ "C04": "Also: every loop on the decode path is counted or consumes input on every iteration (termination); decode mirrors encode per type (stability, layout half).",
+ "C05": "Also: each reply frame and each request record (with its two buffered channels) is created for that frame/call; the non-error reply is returned only on the Type != Rerror edge.",
+ "C06": "Also: the handler runs under the request's own WithCancel context; each dispatcher clause calls its Session method on every path (no pre-filtering); the data of an Rread is a buffer made for that request; error replies carry err.Error() or the Rerror itself (also through helpers).",
+ "C07": "Also: the handler runs under the request's own cancellable context (the one whose cancel func is in the tag table).",
+ "C08": "Also: a fid's File is recorded only after the producing call is known to have succeeded; no reservation is left in the table and no fid lock is still held when an operation returns.",
+ "C09": "Also evaluates the C05 and C06 rule sets, buffered reply channels, the write-failure rules, the ReadFcall rules (a frame of exactly msize is accepted), reply typing in every client method, the codec-grammar rules and the fresh-reply-buffer rule.",
+ "C10": "Also: the write-side partition and the read-side overflow/frame rules (shared with C02/C03); the server answers its own msize only on an edge implying ch.MSize() <= the client's proposal; the client's SetMSize rules also through extracted helpers.",
+ "C11": "Also: a failed read/write is retried only for a transient net.Error (path enumeration); the connection deadline is re-armed before every I/O step; close() only on termination channels; no fid lock is still held when a session operation returns (Stop takes every fid's lock).",
+ "C12": "Also: a failed request write does not end the owner loop; the reader retries only transient net errors; deadlines re-armed before every I/O step; every client method reports success only on the ok edge of a checked assertion of the reply to its R type; close() only on termination channels.",
+ "C13": "Also: the reservation helper returns a non-nil *SFid only on the not-loaded edge; an SFid is locked before it is published; every access of the unbind helper to the fid's state is under the fid's lock.",
+ "C14": "Also: an SFid is locked before LoadOrStore publishes it; after a release the entry is cleared (Ent = nil) before the fid lock is dropped on every path.",
+ "C15": "Also through validating predicate helpers and helper parameters (classes computed from all call sites).",
+ "C16": "Also: ToWalk succeeds only on paths implying NormalizePath's count >= 0 (== 0 for absolute paths); NormalizePath pops only an ordinary element (cursor > count of kept leading '..') and returns fresh storage.",
+ "C17": "Also: the client marks a listing finished only on EOF, an empty read or an empty batch; each open directory has its own chunk buffer; the Readdir of a created directory is opened on the entry Create returned; the iterator may be a closure or a bound method.",
+ "C18": "Also: data placement in FileEnt.Read/Write (where bytes are taken from / put, as affine slice bounds, overflow-sound for 64-bit offsets); links inserted only when absent and deleted only when present, success reported only after the change; children cleared only after the decref loop; entries of the walk result placed into the new handle's chain come from ans[ndel:].",
+ "C19": "Also: every FileRef literal takes Info from a successful os.Stat of its own path; each operation changes the host only through the host call of the same meaning (Remove→os.Remove, WStat→Chmod/Chown/rename/os.Truncate, Create→Mkdir/OpenFile, Open→OpenFile, Write→WriteAt).",
+ "C20": "Also: client.Walk's Twalk carries exactly the caller's names; Attach/Auth hand out only entries whose fid was allocated and bound in that call; every return of newFid is the value just stored by the increment; NormalizePath's classes and fresh result.",
+}
+for _pid in list(CLAIMS):
+    t, d, nd, ref = CLAIMS[_pid]
+    CLAIMS[_pid] = (t, d + (" " + ADDENDA[_pid] if _pid in ADDENDA else "") + " In the property's anchor files no error of a library function, library interface method or framing I/O call is dropped (reviewed exceptions listed in the checker).", nd, ref)
 
 REASON_PENDING = "static check not built yet in this round (planned per DESIGN.md §4); not claimed until its rules are in place"
 
